@@ -53,13 +53,17 @@ type MemNode struct {
 }
 
 type MemState struct {
-	m map[string]*MemNode // by sort key
+	m  map[string]*MemNode // by sort key
+	mp map[string]*MapNode // map state by "<map type>#has" / "#v<i>" (absent = the unit's base)
 }
 
 func (ms MemState) clone() MemState {
-	n := MemState{m: make(map[string]*MemNode, len(ms.m))}
+	n := MemState{m: make(map[string]*MemNode, len(ms.m)), mp: make(map[string]*MapNode, len(ms.mp))}
 	for k, v := range ms.m {
 		n.m[k] = v
+	}
+	for k, v := range ms.mp {
+		n.mp[k] = v
 	}
 	return n
 }
